@@ -2,6 +2,8 @@ package e1
 
 import (
 	"fmt"
+
+	"github.com/vx-labs/wasp/v4/wasp/audit"
 	"sort"
 	"strings"
 	"testing"
@@ -97,15 +99,21 @@ func TestC09Broadcasts(t *testing.T) {
 		states := vk.NewSet()
 		nontriv := vk.NewSet()
 		var seqs, steps, bulkMany int64
-		for pm, preload := range []bool{false, true, true, true} {
+		for pm, preload := range []bool{false, true, true, true, false} {
 			big := pm == 2
-			frozen := pm == 3 // every operation of the sequence (and the preload) falls within one reading of the clock
+			frozen := pm == 3
+			// the broker's default audit recorder (stdout): it fails on session identifiers shorter than 8 characters (its
+			// template slices them), and a failing audit sink must not come between a change and its broadcast
+			stdoutAudit := pm == 4 // every operation of the sequence (and the preload) falls within one reading of the clock
 			d := depth
 			if big {
 				d = depth - 2 // the large preload is explored two operations shallower
 			}
 			if frozen {
 				d = depth - 1
+			}
+			if stdoutAudit {
+				d = 2
 			}
 			complete := SeqsShard(len(ops), d, sh, deadline, func(seq []int) {
 				if wanted != nil {
@@ -126,6 +134,9 @@ func TestC09Broadcasts(t *testing.T) {
 				dResetClock()
 				dFrozen = frozen
 				a := newDNode("A", 1, 0)
+				if stdoutAudit {
+					a = newDNodeRec("A", 1, 0, audit.StdoutRecorder())
+				}
 				m := newDNode("M", 3, 0)
 				// a second origin whose queue is only drained at the end of the sequence: broadcasts stay
 				// pending while later operations queue theirs (a queued broadcast must not cancel another)
